@@ -670,7 +670,7 @@ func c04Sig(resp *s3c.Resp) string {
 // c04Twins fills Resolved: an executed case that aims at a planted location and
 // whose reply has another shape than the reply to the same request with the names
 // bound to fresh ones (nothing there) depended on the existence of that location.
-// Only where a dot or empty segment precedes every surviving name: then no stored
+// Only where a dot segment precedes every surviving name: then no stored
 // name lies between the two values and a position / filter reading of the value
 // (markers, prefixes) gives the same answer for both.
 func c04Twins(obs []c04Obs) int {
@@ -696,8 +696,11 @@ func c04Twins(obs []c04Obs) int {
 			}
 		}
 		guarded := false
+		// (a dot segment; an empty one does not count: a leading "/" of a copy source is
+		// not part of the name, and then the names are an ordinary bucket / key whose
+		// existence the reply may depend on)
 		for _, sg := range o.Case.Segs[:first-1] {
-			if sg == "." || sg == ".." || sg == "" {
+			if sg == "." || sg == ".." {
 				guarded = true
 			}
 		}
@@ -796,7 +799,7 @@ func c04Region(class string) (eff, target string) {
 }
 
 func C04(c *core.Ctx, replay string) {
-	c.Rule = "TLC enumerates, per client-controlled path-like parameter (13 kinds; the id markers of the version and upload listings are kinds of their own, based where a direct look-up would join them), every segment sequence up to the tier's depth over {name, '.', '..', empty} and binds the names to every planted target the raw join can reach (plus a fresh name); each (vector, aim) is sent in 9 spellings (raw, percent-encoded dots / slashes, double-encoded, mixed, backslash, NUL, fullwidth dot, and - for query parameters - given twice with a harmless value first) over the routes that carry the parameter, as the bucket owner and as root, against a gateway whose storage carries canaries in every area and beside the root. Non-trivial: a case whose literal value is not well-formed (dot / empty / NUL segments or a reserved name) and that the gateway answered 2xx or that changed or disclosed anything. Existence differential: where a dot / empty segment precedes the names of the value, the reply to the value aimed at a planted location must have the same shape (status, code, number of listed entries) as the reply to the same value with fresh names - otherwise the value was resolved there (class resolve:<region>)."
+	c.Rule = "TLC enumerates, per client-controlled path-like parameter (13 kinds; the id markers of the version and upload listings are kinds of their own, based where a direct look-up would join them), every segment sequence up to the tier's depth over {name, '.', '..', empty} and binds the names to every planted target the raw join can reach (plus a fresh name); each (vector, aim) is sent in 9 spellings (raw, percent-encoded dots / slashes, double-encoded, mixed, backslash, NUL, fullwidth dot, and - for query parameters - given twice with a harmless value first) over the routes that carry the parameter, as the bucket owner and as root, against a gateway whose storage carries canaries in every area and beside the root. Non-trivial: a case whose literal value is not well-formed (dot / empty / NUL segments or a reserved name) and that the gateway answered 2xx or that changed or disclosed anything. Existence differential: where a dot segment precedes the names of the value, the reply to the value aimed at a planted location must have the same shape (status, code, number of listed entries) as the reply to the same value with fresh names - otherwise the value was resolved there (class resolve:<region>)."
 	c.Assumptions = []string{
 		"a location is 'changed' iff its type, content hash or user xattrs differ between byte-exact snapshots of the whole scratch tree (8 directory levels around the gateway root) taken before and after the request; timestamps are not compared",
 		"a reply 'discloses' a planted location iff it contains that location's content token, unique name or metadata token and the request did not",
